@@ -33,8 +33,11 @@ Seqs(n) == UNION {[1..k -> Classes] : k \in 0..n}
 \* sequences worth running: no two separators in a row (they lex as one)
 NoDoubleSep(s) == \A i \in 1..(Len(s) - 1) : ~(s[i] = "s" /\ s[i + 1] = "s")
 
+\* all short sequences, plus every sequence of up to MaxLen - 1 classes after a
+\* complete moveto (most of the scanner is only reachable behind one)
 Init ==
     /\ toks \in {s \in Seqs(MaxLen) : NoDoubleSep(s)}
+                 \cup {<<"M", "n", "n">> \o s : s \in {u \in Seqs(MaxLen - 1) : NoDoubleSep(u)}}
     /\ idx = 1 /\ cmd = "-" /\ need = <<>> /\ result = "running" /\ steps = 0
 
 Tok == toks[idx]
